@@ -6,7 +6,10 @@ package revocation
 //@ pred evbytes(ev) := bcat(bcat(be64(ev.Index), bytes(ev.ParentHash)), i2osp(abs(val(ev.E))))
 //@ pred hasheq(ev, h) := mhok(bytes(h)) && mhcode(bytes(h)) == 18 && bytes(h) == mhsum(evbytes(ev), 18)
 //@ pred signedok(k, m) := cborok(m) && asn1ok(cborsig(m)) && asn1rest(cborsig(m)) == 0 && ecdsaok(k, sha256(cbormsg(m)), asn1R(cborsig(m)), asn1S(cborsig(m)))
-//@ pred chained(events, acc) := len(events) > 0 ==> (hasheq(events[len(events)-1], acc.EventHash) && (forall i in 1..len(events) :: hasheq(events[i-1], events[i].ParentHash)) && (forall i in 0..len(events) :: events[i].Index == wrapU64(events[0].Index + i)))
+//@ # framed: the bytes hashed for an event (index, parent hash, value without length framing) determine the three parts: the parent hash of
+//@ # the first event - the only one not compared with a computed hash - is a full SHA-256 multihash (34 bytes), and values are positive
+//@ pred framed(events) := len(events) > 0 ==> (len(events[0].ParentHash) == 34 && mhok(bytes(events[0].ParentHash)) && mhcode(bytes(events[0].ParentHash)) == 18 && forall i in 0..len(events) :: val(events[i].E) > 0)
+//@ pred chained(events, acc) := len(events) > 0 ==> (framed(events) && hasheq(events[len(events)-1], acc.EventHash) && (forall i in 1..len(events) :: hasheq(events[i-1], events[i].ParentHash)) && (forall i in 0..len(events) :: events[i].Index == wrapU64(events[0].Index + i)))
 //@ pred evnonnil(events) := forall i in 0..len(events) :: events[i] != nil && events[i].E != nil
 //@ axiom sha256supported(): mhsupported(18)
 
@@ -66,6 +69,13 @@ package revocation
 //@   loop 0 invariant 0 <= $i && $i <= len(events) && len(events) > 0
 //@   loop 0 invariant forall j in 1..$i :: hasheq(events[j-1], events[j].ParentHash)
 //@   loop 0 invariant forall j in 0..$i :: events[j].Index == wrapU64(events[0].Index + j)
+//@   loop 0 invariant len(events[0].ParentHash) == 34 && mhok(bytes(events[0].ParentHash)) && mhcode(bytes(events[0].ParentHash)) == 18 && forall j in 0..$i :: val(events[j].E) > 0
+//@   mustfail canary: err != nil
+
+//@ func (Hash).wellFormed
+//@   property C10
+//@   ensures full: err == nil ==> len(hash) == 34 && mhok(bytes(hash)) && mhcode(bytes(hash)) == 18
+//@   modifies nothing
 //@   mustfail canary: err != nil
 
 //@ func (*SignedAccumulator).UnmarshalVerify
